@@ -1,5 +1,5 @@
 CONSTANTS MaxRow = 1048576 MaxCol = 16384 Wide = FALSE MaxOpts = 1 MaxSst = 0 MaxCells = 1 UseBlock = TRUE MaxAttrs = 0
   Variants = "all" EmitReplay = FALSE
 SPECIFICATION MCSpec
-INVARIANTS DecodeTotal KindByType SstIndirection AnchorFirst SharedConsistent PositionsImplied XLemmas
+INVARIANTS DecodeTotal KindByType SstIndirection AnchorFirst SharedConsistent PositionsImplied XLemmas FmtLemmas
 CHECK_DEADLOCK FALSE
